@@ -49,6 +49,9 @@ type NodeSpec struct {
 	PreTy  *int `json:"prety,omitempty"`
 	PostTy *int `json:"postty,omitempty"`
 	PSTy   *int `json:"psty,omitempty"`
+	// Fail = 1 + kind code of the critical section of this node whose user function returns an
+	// error after it has updated the state (0 = none): 1 pre-handler, 2 post-handler, 3+j body j
+	Fail int `json:"fail,omitempty"`
 }
 
 type GraphSpec struct {
@@ -56,11 +59,26 @@ type GraphSpec struct {
 	State bool       `json:"state"`
 	STy   int        `json:"sty,omitempty"` // type of the state the graph declares: 0 = *St, 1 = *St2
 	Nodes []NodeSpec `json:"nodes"`
+	Loop  *LoopSpec  `json:"loop,omitempty"` // Pregel graphs only
 }
+
+// LoopSpec makes the consecutive nodes Body of a Pregel graph a loop executed Iter times: a
+// branch after the node Last (the last of Body, alone in its layer) goes back to the nodes
+// Entry (the first layer of Body) Iter-1 times and then on to Last's successors (or END).
+// For the model the loop is unrolled: the copy of body node n for round r is node n + r*stride.
+type LoopSpec struct {
+	Entry []int `json:"entry"`
+	Body  []int `json:"body"`
+	Last  int   `json:"last"`
+	Iter  int   `json:"iter"`
+}
+
+const stride = 1000
 
 type IntSpec struct {
 	Graph    int   `json:"graph"`
-	Nodes    []int `json:"nodes"` // interrupt before these nodes of that graph
+	Nodes    []int `json:"nodes"` // interrupt before (or, with After, after) these nodes of that graph
+	After    bool  `json:"after,omitempty"`
 	Modifier bool  `json:"modifier"`
 }
 
@@ -204,6 +222,18 @@ type rec struct {
 	yseed   uint64
 	active  int64 // node bodies and critical sections in flight
 	mods    map[int][]int // run -> graphs the modifier was applied to
+	rounds  map[[3]int]int // (run, node, what) -> how often it has been executed in that run
+}
+
+// round tells how often (node, what) has been executed before in this run (0 for the first
+// execution; > 0 only for nodes inside a loop, or when something is executed once too often)
+func (h *rec) round(ctx context.Context, node, what int) int {
+	key := [3]int{runOf(ctx), node, what}
+	h.mu.Lock()
+	r := h.rounds[key]
+	h.rounds[key] = r + 1
+	h.mu.Unlock()
+	return r
 }
 
 type runKey struct{}
@@ -232,6 +262,7 @@ func (h *rec) yield() {
 
 // cs is the body of every critical section.
 func (h *rec) cs(ctx context.Context, node, kc int, x []KV, s *St) []KV {
+	node += h.round(ctx, node, kc) * stride
 	atomic.AddInt64(&h.active, 1)
 	defer atomic.AddInt64(&h.active, -1)
 	if s.Busy {
@@ -263,6 +294,78 @@ func (h *rec) cs(ctx context.Context, node, kc int, x []KV, s *St) []KV {
 	h.events = append(h.events, ev)
 	h.mu.Unlock()
 	return out
+}
+
+// unroll returns the case with every loop unrolled (what the model and the oracle see): the
+// body is repeated Iter times, the copy for round r has ids + r*stride, the entry nodes of
+// round r > 0 are fed by the last node of round r-1, the loop's successors by the last round.
+func (c *Case) unroll() *Case {
+	u := *c
+	u.Forest = make([]GraphSpec, len(c.Forest))
+	for gi, g := range c.Forest {
+		ng := g
+		ng.Loop = nil
+		if g.Loop == nil {
+			u.Forest[gi] = ng
+			continue
+		}
+		lp := g.Loop
+		inBody := map[int]bool{}
+		for _, b := range lp.Body {
+			inBody[b] = true
+		}
+		isEntry := map[int]bool{}
+		for _, e := range lp.Entry {
+			isEntry[e] = true
+		}
+		var nodes []NodeSpec
+		emitted := false
+		for _, n := range g.Nodes {
+			if !inBody[n.ID] {
+				m := n
+				m.Preds = nil
+				for _, p := range n.Preds {
+					if p == lp.Last {
+						p += (lp.Iter - 1) * stride
+					}
+					m.Preds = append(m.Preds, p)
+				}
+				nodes = append(nodes, m)
+				continue
+			}
+			if emitted {
+				continue
+			}
+			emitted = true
+			for r := 0; r < lp.Iter; r++ {
+				for _, b := range g.Nodes {
+					if !inBody[b.ID] {
+						continue
+					}
+					m := b
+					m.ID = b.ID + r*stride
+					m.Preds = nil
+					if isEntry[b.ID] && r > 0 {
+						m.Preds = []int{lp.Last + (r-1)*stride}
+					} else {
+						for _, p := range b.Preds {
+							if inBody[p] {
+								p += r * stride
+							}
+							m.Preds = append(m.Preds, p)
+						}
+					}
+					if r > 0 {
+						m.Fail = 0 // an injected failure ends the run in round 0
+					}
+					nodes = append(nodes, m)
+				}
+			}
+		}
+		ng.Nodes = nodes
+		u.Forest[gi] = ng
+	}
+	return &u
 }
 
 // ---------------------------------------------------------------- building the eino graphs
@@ -314,9 +417,11 @@ func (c *Case) outKeys(n NodeSpec) []int {
 	if n.Sub < 0 || n.Sub >= len(c.Forest) {
 		return []int{n.ID}
 	}
+	// a nested graph delivers what its last nodes deliver: with a loop, the last round's copies
+	u := c.unroll()
 	var ks []int
-	for _, s := range c.sinks(&c.Forest[n.Sub]) {
-		ks = append(ks, c.outKeys(s)...)
+	for _, s := range u.sinks(&u.Forest[n.Sub]) {
+		ks = append(ks, u.outKeys(s)...)
 	}
 	return ks
 }
@@ -358,6 +463,8 @@ func asSt[S any](s S) *St {
 	return nil
 }
 
+var errInjected = errors.New("c11: injected handler failure")
+
 func handlerOpts[S any](h *rec, n NodeSpec, pre bool) compose.GraphAddNodeOpt {
 	id := n.ID
 	kc := kPost
@@ -365,13 +472,17 @@ func handlerOpts[S any](h *rec, n NodeSpec, pre bool) compose.GraphAddNodeOpt {
 	if pre {
 		kc, stream = kPre, n.SPre
 	}
+	var fail error
+	if n.Fail == kc+1 {
+		fail = errInjected
+	}
 	if stream {
 		f := func(ctx context.Context, in *schema.StreamReader[M], s S) (*schema.StreamReader[M], error) {
 			m, err := readAll(in)
 			if err != nil {
 				return nil, err
 			}
-			return schema.StreamReaderFromArray([]M{toM(h.cs(ctx, id, kc, fromM(m), asSt(s)))}), nil
+			return schema.StreamReaderFromArray([]M{toM(h.cs(ctx, id, kc, fromM(m), asSt(s)))}), fail
 		}
 		if pre {
 			return compose.WithStreamStatePreHandler(f)
@@ -379,7 +490,7 @@ func handlerOpts[S any](h *rec, n NodeSpec, pre bool) compose.GraphAddNodeOpt {
 		return compose.WithStreamStatePostHandler(f)
 	}
 	f := func(ctx context.Context, in M, s S) (M, error) {
-		return toM(h.cs(ctx, id, kc, fromM(in), asSt(s))), nil
+		return toM(h.cs(ctx, id, kc, fromM(in), asSt(s))), fail
 	}
 	if pre {
 		return compose.WithStatePreHandler(f)
@@ -394,6 +505,19 @@ func (c *Case) visibleTy(gi int) int {
 		return c.Forest[o].STy
 	}
 	return 0
+}
+
+// the section designated by n.Fail exists in the program
+func (c *Case) failApplies(n NodeSpec) bool {
+	switch {
+	case n.Fail == kPre+1:
+		return n.Pre
+	case n.Fail == kPost+1:
+		return n.Post
+	case n.Fail >= kBody+1:
+		return n.Sub < 0 && n.Fail-kBody-1 < n.PS
+	}
+	return false
 }
 
 func tyOr(p *int, def int) int {
@@ -423,35 +547,39 @@ func (h *rec) nodeOpts(c *Case, gi int, n NodeSpec) []compose.GraphAddNodeOpt {
 	return opts
 }
 
-func processState[S any](h *rec, ctx context.Context, id, kc int, x *[]KV) error {
+func processState[S any](h *rec, ctx context.Context, id, kc int, x *[]KV, fail error) error {
 	return compose.ProcessState[S](ctx, func(ctx context.Context, s S) error {
 		*x = h.cs(ctx, id, kc, *x, asSt(s))
-		return nil
+		return fail
 	})
 }
 
 func (h *rec) lambda(n NodeSpec, psTy int) *compose.Lambda {
-	id, ps, delay := n.ID, n.PS, n.DelayUs
+	id, ps, delay, failKC := n.ID, n.PS, n.DelayUs, n.Fail
 	return compose.InvokableLambda(func(ctx context.Context, in M) (M, error) {
 		atomic.AddInt64(&h.active, 1)
 		defer atomic.AddInt64(&h.active, -1)
 		x := fromM(in)
+		uid := id + h.round(ctx, id, -1)*stride
 		if delay > 0 {
 			time.Sleep(time.Duration(delay) * time.Microsecond)
 		}
 		for j := 0; j < ps; j++ {
-			var err error
+			var err, fail error
+			if failKC == kBody+j+1 {
+				fail = errInjected
+			}
 			if psTy == 1 {
-				err = processState[*St2](h, ctx, id, kBody+j, &x)
+				err = processState[*St2](h, ctx, id, kBody+j, &x, fail)
 			} else {
-				err = processState[*St](h, ctx, id, kBody+j, &x)
+				err = processState[*St](h, ctx, id, kBody+j, &x, fail)
 			}
 			if err != nil {
 				return nil, err
 			}
 			h.yield()
 		}
-		return toM(leafOut(id, x)), nil
+		return toM(leafOut(uid, x)), nil
 	})
 }
 
@@ -478,12 +606,19 @@ func (c *Case) compileOpts(gi int) []compose.GraphCompileOption {
 	if g.Mode == "dag" {
 		opts = append(opts, compose.WithNodeTriggerMode(compose.AllPredecessor))
 	}
+	if g.Loop != nil {
+		opts = append(opts, compose.WithMaxRunSteps(len(g.Nodes)*(g.Loop.Iter+1)+10))
+	}
 	if c.Interrupt != nil && c.Interrupt.Graph == gi {
 		var keys []string
 		for _, id := range c.Interrupt.Nodes {
 			keys = append(keys, nkey(id))
 		}
-		opts = append(opts, compose.WithInterruptBeforeNodes(keys))
+		if c.Interrupt.After {
+			opts = append(opts, compose.WithInterruptAfterNodes(keys))
+		} else {
+			opts = append(opts, compose.WithInterruptBeforeNodes(keys))
+		}
 	}
 	return opts
 }
@@ -551,16 +686,47 @@ func (h *rec) build(c *Case, gi int, depth int) (compose.AnyGraph, error) {
 			note(gr.AddLambdaNode(nkey(n.ID), h.lambda(n, tyOr(n.PSTy, c.visibleTy(gi))), h.nodeOpts(c, gi, n)...))
 		}
 	}
+	last := -1
+	if g.Loop != nil {
+		last = g.Loop.Last
+	}
+	exits := map[string]bool{}
 	for _, n := range g.Nodes {
 		if len(n.Preds) == 0 {
 			note(gr.AddEdge(compose.START, nkey(n.ID)))
 		}
 		for _, p := range n.Preds {
+			if p == last {
+				exits[nkey(n.ID)] = true // reached through the loop's branch
+				continue
+			}
 			note(gr.AddEdge(nkey(p), nkey(n.ID)))
 		}
 	}
 	for _, s := range c.sinks(g) {
+		if s.ID == last {
+			exits[compose.END] = true
+			continue
+		}
 		note(gr.AddEdge(nkey(s.ID), compose.END))
+	}
+	if g.Loop != nil {
+		lp := g.Loop
+		again := map[string]bool{}
+		ends := map[string]bool{}
+		for _, e := range lp.Entry {
+			again[nkey(e)] = true
+			ends[nkey(e)] = true
+		}
+		for k := range exits {
+			ends[k] = true
+		}
+		note(gr.AddBranch(nkey(lp.Last), compose.NewGraphMultiBranch(func(ctx context.Context, in M) (map[string]bool, error) {
+			if h.round(ctx, lp.Last, -2) < lp.Iter-1 {
+				return again, nil
+			}
+			return exits, nil
+		}, ends)))
 	}
 	if firstErr != nil {
 		return nil, firstErr
@@ -670,7 +836,7 @@ func (h *rec) oneRun(c *Case, r compose.Runnable[M, M], run int, resumes *[]Resu
 			return nil
 		}))
 	}
-	for round := 0; err != nil && c.Interrupt != nil && round < 8; round++ {
+	for round := 0; err != nil && c.Interrupt != nil && round < 24; round++ {
 		info, ok := compose.ExtractInterruptInfo(err)
 		if !ok {
 			break
@@ -703,7 +869,7 @@ func (c *Case) execute() (o Obs, hang bool) {
 		_ = compose.RegisterSerializableType[St]("c11_state")
 		_ = compose.RegisterSerializableType[St2]("c11_state2")
 	})
-	h := &rec{yseed: c.Yield, mods: map[int][]int{}}
+	h := &rec{yseed: c.Yield, mods: map[int][]int{}, rounds: map[[3]int]int{}}
 	top, err := h.build(c, 0, 0)
 	if err != nil {
 		return Obs{BuildErr: "add"}, false
@@ -926,7 +1092,13 @@ func (c *Case) coqTerm(o *Obs) string {
 				lib.CoqPair(lib.CoqN(uint64(tyOr(n.PostTy, g.STy))), lib.CoqN(uint64(tyOr(n.PSTy, c.visibleTy(gi))))))))
 		}
 	}
-	return lib.CoqApp("mkCase", c.coqForest(), lib.CoqList(gty), lib.CoqList(nty), coqX([]KV{{0, c.X0}}), lib.CoqN(uint64(c.Runs)),
+	failing := false
+	for _, g := range c.Forest {
+		for _, n := range g.Nodes {
+			failing = failing || c.failApplies(n)
+		}
+	}
+	return lib.CoqApp("mkCase", c.coqForest(), lib.CoqList(gty), lib.CoqList(nty), lib.CoqBool(failing), coqX([]KV{{0, c.X0}}), lib.CoqN(uint64(c.Runs)),
 		lib.CoqBool(o.BuildErr != ""), "\n  "+lib.CoqList(logs), "\n  "+lib.CoqList(finals), lib.CoqList(results),
 		lib.CoqN(uint64(o.Gens)))
 }
@@ -946,9 +1118,10 @@ func (e engine) Run(ci any) lib.Result {
 		res.Oracle, res.Sig = "run did not return within 20s", "hang"
 		return res
 	}
-	res.Oracle, res.Sig = c.oracle(&o)
-	res.CoqTerm = c.coqTerm(&o)
-	res.Nontrivial = c.nontrivial(&o)
+	cu := c.unroll()
+	res.Oracle, res.Sig = cu.oracle(&o)
+	res.CoqTerm = cu.coqTerm(&o)
+	res.Nontrivial = cu.nontrivial(&o)
 	return res
 }
 
@@ -995,6 +1168,11 @@ func (c *Case) tags(o *Obs) []string {
 	if c.Concurrent && c.Runs > 1 {
 		t = append(t, "concurrent-runs")
 	}
+	for _, g := range c.Forest {
+		if g.Loop != nil {
+			t = append(t, fmt.Sprintf("loop:%d", g.Loop.Iter))
+		}
+	}
 	if c.Stream {
 		t = append(t, "call:stream")
 	} else {
@@ -1008,6 +1186,9 @@ func (c *Case) tags(o *Obs) []string {
 			}
 			if c.Interrupt.Graph > 0 {
 				t = append(t, "interrupt:nested")
+			}
+			if c.Interrupt.After {
+				t = append(t, "interrupt:after")
 			}
 		} else {
 			t = append(t, "interrupt:not-hit")
@@ -1023,6 +1204,13 @@ func (c *Case) tags(o *Obs) []string {
 			}
 			if n.Sub < 0 && n.PS > 0 && c.ownerOf(gi) >= 0 && tyOr(n.PSTy, c.visibleTy(gi)) != c.visibleTy(gi) {
 				t = append(t, "malformed:processstate-type")
+			}
+		}
+	}
+	for _, g := range c.Forest {
+		for _, n := range g.Nodes {
+			if c.failApplies(n) {
+				t = append(t, fmt.Sprintf("handler-error:%s", map[bool]string{true: "body", false: map[int]string{1: "pre", 2: "post"}[n.Fail]}[n.Fail > 2]))
 			}
 		}
 	}
@@ -1093,6 +1281,9 @@ func (c *Case) oracle(o *Obs) (string, string) {
 		for ri < len(o.Resumes) && o.Resumes[ri].Seq < e.Seq {
 			epoch[o.Resumes[ri].Run]++
 			ri++
+		}
+		if c.graphOf(e.Node) < 0 {
+			return fmt.Sprintf("critical section (node %d round %d, kind %d) executed although the program has no such execution", e.Node%stride, e.Node/stride, e.KC), "order"
 		}
 		k := lk{e.Run, e.Node, e.KC}
 		if _, dup := pos[k]; dup {
